@@ -8,4 +8,6 @@ def run(chk):
         motion.run(chk, sc)
         from harness import ecmc_design
         ecmc_design.design_for(chk, sc, "C07")
+        from checks import initcfg
+        initcfg.run(chk, sc, "C07")          # the initial molecules as the real input handlers generate them
         runlevel.run_for(chk, "C07", sc)
